@@ -172,8 +172,11 @@ def _tlc_trace_one(module, cfg, trace, wd, timeout=1800, heap="6g"):
         bad.append((mm.group(1), int(mm.group(2)), int(mm.group(3)), mm.group(4) or ""))
     c = re.search(r'<<"CONSUMED", (\d+), (\d+)>>', out)
     if not c:
-        raise ToolError("trace validation did not complete:\n" + "\n".join(
-            l for l in out.splitlines() if not _NOISE.match(l))[-5000:])
+        with open(os.path.join(wd, "tlc-trace-error.log"), "w") as f:
+            f.write(out)
+        errs = [l for l in out.splitlines() if l.startswith("Error:") or "Exception" in l or l.startswith(":")]
+        raise ToolError("trace validation did not complete (full output in %s):\n%s" % (
+            os.path.join(wd, "tlc-trace-error.log"), "\n".join(errs)[:3000]))
     consumed, total = int(c.group(1)), int(c.group(2))
     if consumed != total:
         raise ToolError("trace specification stuck at line %d of %d:\n%s" % (
